@@ -111,6 +111,12 @@ def one_case(ctx, kind, inp, inp0, user_seed, configs):
                     for root, _ds, fs in os.walk(os.path.join(base, "out")):
                         for f in fs:
                             os.utime(os.path.join(root, f), (stamp, stamp))
+            if seedtree is not None and i == 1 and kind in ("py", "cs", "cpp", "proto"):
+                # history: an earlier generation of the same model into this directory was killed half way (another process); what the
+                # next complete run leaves must not depend on it
+                from .c05 import runner as fault_runner
+                fault_runner(kind, inp, os.path.join(base, "out"), {"op": 3 + user_seed % 9, "mode": "kill", "scope": "createoutput"})
+                ctx.count("configurations_after_a_killed_run")
             ret, err = run_config(kind, inp, base, *c)
             if err:
                 if i == 0:
